@@ -210,6 +210,20 @@ CHECKS = {
               "number and single precision are not decided; multigrid convergence is an observation predicate"),
         technique="TLA+ exact adjugate/determinant model and decision-tree transcription checked by TLC; replay on every admissible solver",
         design="9/C05"),
+    "C07": dict(
+        text=("Solvers.tla (partitioned part): for every dof partition free/prescribed of every enumerated Gaussian-integer "
+              "matrix TLC checks LinSysOK (the free block times its adjugate is det I, also transposed - so the documented "
+              "two-step formulation implies A x = b with the prescribed values and applied loads in place) and SchurOK (the "
+              "scaled Schur complement det(A_ff) A_mm - A_mf adj(A_ff) A_fm times the main block of adj of the (main+free) "
+              "system equals det det I, i.e. the condensed system reproduces the main-dof response). LinSolve (dense, sparse, "
+              "with solver override; vector, dependent block and complex right-hand sides), Inverse, SystemOfEquations (every "
+              "partition, free/prescribed given or derived, vector and block loads, sparse and dense input) and "
+              "StaticCondensation (every main/free choice, sparse and dense input) are compared with TLC's exact adjugates, "
+              "determinants and Schur complements, and A x = b is evaluated directly."),
+        note=(TLC_BASE + "; matrices are small (n <= 3) Gaussian-integer matrices of every class incl. rows/columns decoupled "
+              "by zero entries; a complex right-hand side for a real sparse matrix is outside LinSolve's documented inputs"),
+        technique="TLA+ exact partitioned-system identities checked by TLC; replay on the four linear-system modules",
+        design="9/C07"),
 }
 
 
